@@ -89,7 +89,10 @@ def check_after_context(case):
             derived = [("SequencePermutants.get_permutant", SequencePermutants(seq).get_permutant()),
                        ("get_shuffled_sequence", SP(seq).get_shuffled_sequence()),
                        ("get_shuffled_sequence(frozen first half)", o.get_shuffled_sequence(set(range(len(seq) // 2)))),
-                       ("SequenceParameters(SeqObj=)", SP(SeqObj=SP(seq).SeqObj))]
+                       ("SequenceParameters(SeqObj=)", SP(SeqObj=SP(seq).SeqObj)),
+                       ("copy.deepcopy", __import__("copy").deepcopy(o)), ("copy.copy", __import__("copy").copy(o)),
+                       ("pickle round trip", __import__("pickle").loads(__import__("pickle").dumps(SP(seq), protocol=len(seq) % 6))),
+                       ("deepcopy of the backend object", SP(SeqObj=__import__("copy").deepcopy(SP(seq).SeqObj)))]
         except Exception as e:  # noqa
             out.append({"key": "after-context:exception", "what": "%s: deriving a permutant raised %r" % (seq, e), "case": dict(case, seq=seq)})
             derived = []
@@ -275,7 +278,7 @@ def run(tier, seed, t0):
              "that length), plus all homopolymers X^a (a<=12) and two-residue blocks X^a Y^b (4<=a+b<=12) and long ones (130..1000 residues; 1000-2500 (thorough 12000) residues over all 20 residues); per sequence 18 real "
              "getter calls (+ 13 calls with other spellings of the PPII scale name: capitalised, upper and mixed case, positional and keyword, default) (counts, fractions, FCR, NCPR, mean net charge, expanding, disorder-promoting, 20 aa fractions, "
              "KD 0-9 / Uversky / Wimley-White hydropathy, 3 PPII scales, molecular weight) compared with exact sums over pinned "
-             "published tables, 5 identities, and equality across permutations; after-context pass: on one live object per X^6, X^3Y^4 (all 380 ordered pairs) and 5 longer words, 16 other API calls (kappa, Omega, kappa_X incl. groups absent from the sequence, pI, pH getters, phosphosites, linear profiles, complexity, palette) each followed by 14 composition getters that must still equal the per-residue sums, then the same getters plus length on four derived objects (permutant, two shuffles, SeqObj-sharing wrapper); non-trivial = multisets with >=2 distinct "
+             "published tables, 5 identities, and equality across permutations; after-context pass: on one live object per X^6, X^3Y^4 (all 380 ordered pairs) and 5 longer words, 16 other API calls (kappa, Omega, kappa_X incl. groups absent from the sequence, pI, pH getters, phosphosites, linear profiles, complexity, palette) each followed by 14 composition getters that must still equal the per-residue sums, then the same getters plus length on eight derived objects (permutant, two shuffles, SeqObj-sharing wrapper, deepcopy, copy, pickle round trip, deep-copied backend object); non-trivial = multisets with >=2 distinct "
              "residues" % Lw,
         bounds={"multiset_size": Lw, "block_total": 12, "tolerance_rel": 1e-9},
         assumptions=["published per-residue values pinned in vmc/refmodel/tables.py"])
